@@ -54,6 +54,7 @@ class FnInfo(object):
     self.globals_ = set()
     self.nonlocals = set()
     self.cells = set()
+    self.implicit_globals = set()
 
 
 def scopes_of(src, tree, ids):
@@ -75,6 +76,8 @@ def scopes_of(src, tree, ids):
         fi.locals.add(n)
       elif s.is_free():
         fi.free.add(n)
+      elif s.is_global():
+        fi.implicit_globals.add(n)
     infos[fnode] = fi
     # child function tables in source order match FunctionDef nodes in source order
     kids = [c for c in tab.get_children() if c.get_type() == 'function' and c.get_name() != 'lambda'
@@ -209,7 +212,11 @@ class Instrumenter(object):
     I = self
     if isinstance(s, ast.FunctionDef):
       inner = I.function(s, I.infos[s])
-      # defaults are evaluated in the defining scope
+      # default expressions are evaluated by the def statement, in the defining scope
+      a = copy.copy(inner.args)
+      a.defaults = [I.expr(d, fi) for d in a.defaults]
+      a.kw_defaults = [I.expr(d, fi) if d is not None else None for d in a.kw_defaults]
+      inner.args = a
       return [I.P(s), inner, I.W(s, [s.name])]
     if isinstance(s, ast.ClassDef):
       return [I.P(s), s, I.W(s, [s.name])]
@@ -973,6 +980,20 @@ def c08_side_conditions(S):
       bad.append('%s: globals %s, CPython %s' % (node.name, sorted(names(sc.globals)), sorted(fi.globals_)))
     if names(sc.nonlocals) != fi.nonlocals:
       bad.append('%s: nonlocals %s, CPython %s' % (node.name, sorted(names(sc.nonlocals)), sorted(fi.nonlocals)))
+    # free variables: names read but not bound in the function (CPython: free + implicit globals)
+    if not any(isinstance(n, (ast.ClassDef, ast.Lambda, ast.ListComp, ast.SetComp, ast.DictComp, ast.GeneratorExp))
+               for n in ast.walk(node)):
+      # compared on names that are local to some enclosing function (globals and builtins
+      # are "free" for malt but not closure variables for CPython)
+      cands = set()
+      anc = fi.parent
+      while anc is not None:
+        cands |= anc.locals | anc.params
+        anc = anc.parent
+      mfree = (names(sc.read) - names(sc.bound)) & cands
+      cfree = fi.free - exc_names
+      if mfree - exc_names != cfree:
+        bad.append('%s: free variables %s, CPython %s' % (node.name, sorted(mfree - exc_names), sorted(cfree)))
     bound = names(sc.bound) - names(sc.globals) - names(sc.nonlocals)
     want = (fi.locals | fi.params) - exc_names
     if bound - exc_names != want:
@@ -1055,6 +1076,17 @@ def work(payload):
   try:
     mod, _ = e1.load_module(src, payload['tmpdir'], 'e2')
   except Exception as e:  # pylint:disable=broad-except
+    tb = traceback.extract_tb(e.__traceback__)
+    inner = [fr for fr in tb if '/malt/' in fr.filename]
+    if inner and not isinstance(e, NotImplementedError):
+      # the REAL analysis crashed on an in-class program: that is a violation, not a harness problem
+      res.update(verdict='refuted', kind='analysis_crash', cex=[[], {}],
+                 fails={p: {'decisions': [], 'how': 'analysis_crash',
+                            'fails': [{'kind': 'analysis_crash', 'where': '%s:%d %s' % (
+                                inner[-1].filename.split('/malt/')[-1], inner[-1].lineno, inner[-1].name),
+                                       'error': '%s: %s' % (type(e).__name__, str(e)[:200])}]} for p in props},
+                 detail='analysis crashed: %s' % type(e).__name__)
+      return res
     res.update(verdict='error', detail='analysis/instrumentation failed: %r\n%s' % (e, traceback.format_exc()[-2500:]))
     return res
   S = mod.S
@@ -1097,7 +1129,12 @@ def work(payload):
 def replay(obj):
   """Replay file: {engine:'e2', program, props, decisions}."""
   logging.disable(logging.WARNING)
-  S = analyse(obj['program'])
+  try:
+    S = analyse(obj['program'])
+  except Exception as e:  # pylint:disable=broad-except
+    print('program   :\n' + obj['program'])
+    print('the real analysis crashed: %s: %s' % (type(e).__name__, e))
+    return 1
   rt, how = execute(S, obj['decisions'])
   print('property  :', obj.get('property'))
   print('program   :\n' + obj['program'])
